@@ -87,9 +87,18 @@ fn record_anb(s: &str) -> Value {
       }
     }
   }));
+  // the same formula with an ofRule that every element - and every comma and bracket between them - satisfies: only
+  // the named siblings are counted, so the same indices are selected
+  let yaml_of = format!("id: t\nlanguage: JavaScript\nrule:\n  kind: number\n  nthChild:\n    position: \"{s}\"\n    ofRule: {{not: {{kind: string}}}}\n");
+  let of = catch_unwind(AssertUnwindSafe(|| {
+    let c = from_yaml_string::<SupportLang>(&yaml_of, &globals).ok()?;
+    let g = SupportLang::JavaScript.ast_grep(src);
+    Some(g.root().find_all(&c[0].matcher).map(|m| m.text().parse::<usize>().unwrap()).collect::<Vec<usize>>())
+  }));
+  let of_json = match of { Ok(Some(v)) => json!(v), Ok(None) => json!([99]), Err(_) => json!([98]) };
   match r {
-    Ok((acc, idx)) => json!({"k": "anb", "s": chars_json(s), "accepted": acc, "matched": idx, "panic": false}),
-    Err(_) => json!({"k": "anb", "s": chars_json(s), "accepted": false, "matched": [], "panic": true}),
+    Ok((acc, idx)) => json!({"k": "anb", "s": chars_json(s), "accepted": acc, "matched": idx, "matched_of": of_json, "panic": false}),
+    Err(_) => json!({"k": "anb", "s": chars_json(s), "accepted": false, "matched": [], "matched_of": of_json, "panic": true}),
   }
 }
 
